@@ -573,6 +573,8 @@ def scenarios():
         lambda lk, cfg, aux: lk.visualisations.parameter_estimate_comparisons_chart(as_dict=True), backends=("duckdb",))
     add("match_weights_chart", "match_weights_chart",
         lambda lk, cfg, aux: lk.visualisations.match_weights_chart(as_dict=True), backends=("duckdb",))
+    add("m_u_parameters_chart", "m_u_parameters_chart",
+        lambda lk, cfg, aux: lk.visualisations.m_u_parameters_chart(as_dict=True), backends=("duckdb",))
     add("accuracy_column_roc", "accuracy_analysis_from_labels_column",
         lambda lk, cfg, aux: lk.evaluation.accuracy_analysis_from_labels_column(
             "cluster", output_type="roc", match_weight_round_to_nearest=0.5), needs_retain=True, backends=("duckdb",))
